@@ -231,6 +231,9 @@ class Interp:
         arr.mem[0] = 1; arr.mem[16] = (data, 0)
         return (arr, 0)
     def extern(self, name, args):
+        h = getattr(self, 'hooks', {}).get(name)
+        if h is not None:
+            return h(self, args)
         if isinstance(name, tuple) and name[0] == 'pyapi':
             idx = name[1]
             if idx == self.api_new:
